@@ -269,6 +269,53 @@ example :
     Spec.check addrs [.batch [.fail 0]] [s0, s1] = 8 ∧ Spec.check addrs [.batch [.fail 0]] [s0, s1'] = 6 := by
   decide
 
+/-! ### a `connect` callable that RAISES (review finding S1-1)
+
+`TCPClient._create_stream` re-raises when `bind()` fails.  `try_connect` (as repaired) catches the exception and treats
+the call as a failed attempt: `remaining -= 1`, `last_error`, next address / other family.  The call is recorded as a
+failed, closed stream that never enters `self.streams` and is never `close()`d by the connector. -/
+
+/-- the reviewer's witness: v4 address pending, v6 `connect` raises inside `on_timeout`; when the v4 attempt fails
+too the future completes with the last error, `remaining = 0`, and the whole checker accepts the run -/
+example :
+    let addrs := mkNamedR [(0, 7, 0), (1, 8, 2)]
+    let evs := [.tick, .batch [.fail 0]]
+    let st1 := run (start addrs false) [.tick]
+    let st2 := run (start addrs false) evs
+    st1.settles = [] ∧ st1.remaining = 1 ∧ st1.inSet = [0] ∧ st1.streams.map (fun x => (x.fut, x.closed, x.closes)) =
+        [(.pending, false, 0), (.err, true, 0)]
+      ∧ st2.settles = [.lastError 0] ∧ st2.remaining = 0
+      ∧ Spec.check addrs evs ((start addrs false :: trace (start addrs false) evs).map Spec.snapOf) = 0 := by
+  decide
+
+/-- a raise inside `on_connect_done` (next address of the same family), inside `start()` (first address), and a
+raising call next to one that returns an already-failed future: the other addresses are still tried (inside `start()`
+the fallback timer is not yet set, so — exactly as for an already-failed future — the other family waits for the timer),
+the error comes once every entry has failed, a later success still wins -/
+example :
+    (run (start (mkNamedR [(0, 7, 0), (0, 8, 2), (0, 9, 0)]) false) [.batch [.fail 0]]).streams.map (·.fut)
+        = [.err, .err, .pending]
+    ∧ (run (start (mkNamedR [(0, 7, 0), (0, 8, 2), (0, 9, 0)]) false) [.batch [.fail 0], .batch [.succ 2]]).settles
+        = [.ok 2 2]
+    ∧ (start (mkNamedR [(0, 7, 2), (1, 8, 0)]) false).streams.map (·.fut) = [.err]
+    ∧ (run (start (mkNamedR [(0, 7, 2), (1, 8, 0)]) false) [.tick]).streams.map (·.fut) = [.err, .pending]
+    ∧ (start (mkNamedR [(0, 7, 2), (1, 8, 1), (0, 9, 2)]) true).settles = []
+    ∧ (run (start (mkNamedR [(0, 7, 2), (1, 8, 1), (0, 9, 2)]) true) [.tick]).settles = [.lastError 2]
+    ∧ (run (start (mkNamedR [(0, 7, 2), (1, 8, 1), (0, 9, 2)]) true) [.tick]).inSet = [2] := by
+  decide
+
+/-- the oracle rejects what the unrepaired code did on the reviewer's witness (the exception escaped into the loop,
+`remaining` stayed 1): every address has a failed attempt, nothing is in flight, the future is pending — clause 6
+without a connect timer, clause 8 with one -/
+example :
+    let addrs := mkNamedR [(0, 7, 0), (1, 8, 2)]
+    let evs := [.tick, .batch [.fail 0]]
+    let s0 (ct : Bool) : Spec.Snap := ⟨[], [⟨0, .pending, false⟩], true, ct⟩
+    let s1 (ct : Bool) : Spec.Snap := ⟨[], [⟨0, .pending, false⟩, ⟨1, .err, true⟩], false, ct⟩
+    let s2 (ct : Bool) : Spec.Snap := ⟨[], [⟨0, .err, true⟩, ⟨1, .err, true⟩], false, ct⟩
+    Spec.check addrs evs [s0 false, s1 false, s2 false] = 6 ∧ Spec.check addrs evs [s0 true, s1 true, s2 true] = 8 := by
+  decide
+
 /-! ## consequences of the accounting invariant (`Inv`, files Inv2–Inv4, `inv_run`)
 
 `remaining = |entries still queued in either iterator / the secondary list| + #{streams whose on_connect_done has
@@ -315,19 +362,19 @@ example :
 
 /-- **losers_closed** (clause 4) — at quiescence, once the future is done every stream other than the winner is
 closed and the winner is open; after an error / timeout every stream is closed.  No socket leaks on any schedule. -/
-theorem losers_closed : ∀ (l : List (Nat × Nat × Bool)) (ct : Bool) (evs : List Event),
-    Spec.clause4 (Spec.snapOf (run (start (mkNamed l) ct) evs)) = true :=
-  fun l ct evs => clause4_of_inv (inv_run (mkNamed l) ct evs) (resolved_once _ ct evs)
+theorem losers_closed : ∀ (l : List (Nat × Nat × Nat)) (ct : Bool) (evs : List Event),
+    Spec.clause4 (Spec.snapOf (run (start (mkNamedR l) ct) evs)) = true :=
+  fun l ct evs => clause4_of_inv (inv_run (mkNamedR l) ct evs) (resolved_once _ ct evs)
 
 /-- clause 5 for address lists over any number of families: at most one in-flight attempt per family -/
-theorem one_inflight_per_family_general (l : List (Nat × Nat × Bool)) (ct : Bool) (evs : List Event) :
-    Spec.clause5 (mkNamed l) (Spec.snapOf (run (start (mkNamed l) ct) evs)) = true :=
-  clause5_of_core (inv_run (mkNamed l) ct evs).core (mkNamed_nodup l)
+theorem one_inflight_per_family_general (l : List (Nat × Nat × Nat)) (ct : Bool) (evs : List Event) :
+    Spec.clause5 (mkNamedR l) (Spec.snapOf (run (start (mkNamedR l) ct) evs)) = true :=
+  clause5_of_core (inv_run (mkNamedR l) ct evs).core (mkNamedR_nodup l)
 
 /-- **one_inflight_per_family** (clause 5) — at most one attempt per family in flight (address lists over two families) -/
-theorem one_inflight_per_family : ∀ (l : List (Nat × Nat × Bool)) (ct : Bool) (evs : List Event),
+theorem one_inflight_per_family : ∀ (l : List (Nat × Nat × Nat)) (ct : Bool) (evs : List Event),
     (∀ p ∈ l, p.1 ≤ 1) →
-      Spec.clause5 (mkNamed l) (Spec.snapOf (run (start (mkNamed l) ct) evs)) = true :=
+      Spec.clause5 (mkNamedR l) (Spec.snapOf (run (start (mkNamedR l) ct) evs)) = true :=
   fun l ct evs _ => one_inflight_per_family_general l ct evs
 
 /-- non-vacuity: two families, both attempts in flight after the timer — one per family -/
@@ -337,13 +384,13 @@ example : (∀ p ∈ [(0, 7, false), (1, 7, false), (0, 8, false)], p.1 ≤ 1)
 
 /-- **error_iff_all_failed** — an error outcome other than the timeout means every entry (repeated addresses
 included) was tried and failed -/
-theorem error_iff_all_failed : ∀ (l : List (Nat × Nat × Bool)) (ct : Bool) (evs : List Event) (o : Outcome),
-    (run (start (mkNamed l) ct) evs).settles = [o] → kindOf o = .fail →
-      (run (start (mkNamed l) ct) evs).streams.length = l.length
-        ∧ ∀ x ∈ (run (start (mkNamed l) ct) evs).streams, x.fut = .err := by
+theorem error_iff_all_failed : ∀ (l : List (Nat × Nat × Nat)) (ct : Bool) (evs : List Event) (o : Outcome),
+    (run (start (mkNamedR l) ct) evs).settles = [o] → kindOf o = .fail →
+      (run (start (mkNamedR l) ct) evs).streams.length = l.length
+        ∧ ∀ x ∈ (run (start (mkNamedR l) ct) evs).streams, x.fut = .err := by
   intro l ct evs o h hk
-  have := (inv_run (mkNamed l) ct evs).sett.sfl o h hk
-  rw [mkNamed_length] at this
+  have := (inv_run (mkNamedR l) ct evs).sett.sfl o h hk
+  rw [mkNamedR_length] at this
   exact this
 
 /-- non-vacuity: the same address listed twice, both attempts fail → `last_error` -/
@@ -359,23 +406,23 @@ theorem quiescent_inflight (addrs : List Addr) (ct : Bool) (evs : List Event) :
 
 /-- **completes_when_idle** (clause 6, liveness) — at quiescence, when no attempt is in flight and neither timer
 is live, the future has completed: the connect never hangs -/
-theorem completes_when_idle (l : List (Nat × Nat × Bool)) (ct : Bool) (evs : List Event) :
-    Spec.clause6 (Spec.snapOf (run (start (mkNamed l) ct) evs)) = true :=
-  clause6_of (inv_run (mkNamed l) ct evs) (q1_run _ ct evs) (post_run _ ct evs)
+theorem completes_when_idle (l : List (Nat × Nat × Nat)) (ct : Bool) (evs : List Event) :
+    Spec.clause6 (Spec.snapOf (run (start (mkNamedR l) ct) evs)) = true :=
+  clause6_of (inv_run (mkNamedR l) ct evs) (q1_run _ ct evs) (post_run _ ct evs)
 
 /-- **all_failed_completes** (clause 8) — when every address of the list (repeated addresses included) has a failed
 attempt and nothing is in flight, the future has completed — also while the connect timer is still pending -/
-theorem all_failed_completes (l : List (Nat × Nat × Bool)) (ct : Bool) (evs : List Event) :
-    Spec.clause8 (mkNamed l) (Spec.snapOf (run (start (mkNamed l) ct) evs)) = true :=
-  clause8_of (inv_run (mkNamed l) ct evs) (mkNamed_nodup l) (q1_run _ ct evs) (post_run _ ct evs)
+theorem all_failed_completes (l : List (Nat × Nat × Nat)) (ct : Bool) (evs : List Event) :
+    Spec.clause8 (mkNamedR l) (Spec.snapOf (run (start (mkNamedR l) ct) evs)) = true :=
+  clause8_of (inv_run (mkNamedR l) ct evs) (mkNamedR_nodup l) (q1_run _ ct evs) (post_run _ ct evs)
 
 /-! ## the whole checker on the model's own runs -/
 
 /-- the whole observed-run checker (clauses 1–8) holds of the model's own runs, for lists that may repeat addresses -/
 def model_run_ok_goal : Prop :=
-  ∀ (l : List (Nat × Nat × Bool)) (ct : Bool) (evs : List Event), l ≠ [] → (∀ p ∈ l, p.1 ≤ 1) →
-    Spec.check (mkNamed l) evs
-      ((start (mkNamed l) ct :: trace (start (mkNamed l) ct) evs).map Spec.snapOf) = 0
+  ∀ (l : List (Nat × Nat × Nat)) (ct : Bool) (evs : List Event), l ≠ [] → (∀ p ∈ l, p.1 ≤ 1) →
+    Spec.check (mkNamedR l) evs
+      ((start (mkNamedR l) ct :: trace (start (mkNamedR l) ct) evs).map Spec.snapOf) = 0
 
 /-- as stated the goal is false: a batch in which the environment first FAILS the connect of stream 0 and then
 reports a success of the same stream (a connect future completing twice — excluded by the harness's assumption
@@ -384,7 +431,7 @@ does not look at earlier completions of the same batch and demands an `ok` outco
 oracle on ill-formed schedules, not a defect of `_Connector`. -/
 theorem model_run_ok_refuted : ¬ model_run_ok_goal := by
   intro h
-  have := h [(0, 7, false)] false [.batch [.fail 0, .succ 0]] (by decide) (by decide)
+  have := h [(0, 7, 0)] false [.batch [.fail 0, .succ 0]] (by decide) (by decide)
   revert this
   decide
 
@@ -393,17 +440,17 @@ success wins; errors only after the connect timer or when every address has fail
 family; liveness; one stream per list entry) accepts every run of the model, for address lists that may repeat
 addresses, on every schedule in which no batch reports a stream failed and later in the same batch succeeded
 (decidable side condition `wfEvents`; a connect future completes once) -/
-theorem model_run_ok_partial : ∀ (l : List (Nat × Nat × Bool)) (ct : Bool) (evs : List Event), l ≠ [] →
+theorem model_run_ok_partial : ∀ (l : List (Nat × Nat × Nat)) (ct : Bool) (evs : List Event), l ≠ [] →
     (∀ p ∈ l, p.1 ≤ 1) → wfEvents evs = true →
-    Spec.check (mkNamed l) evs
-      ((start (mkNamed l) ct :: trace (start (mkNamed l) ct) evs).map Spec.snapOf) = 0 := by
+    Spec.check (mkNamedR l) evs
+      ((start (mkNamedR l) ct :: trace (start (mkNamedR l) ct) evs).map Spec.snapOf) = 0 := by
   intro l ct evs hne _ hwf
-  have hne' : mkNamed l ≠ [] := by
+  have hne' : mkNamedR l ≠ [] := by
     intro h
-    have := mkNamed_length l
+    have := mkNamedR_length l
     rw [h] at this
     exact hne (List.eq_nil_of_length_eq_zero this.symm)
-  exact check_of hne' (mkNamed_nodup l) ct evs hwf
+  exact check_of hne' (mkNamedR_nodup l) ct evs hwf
 
 /-- non-vacuity: a well-formed schedule with a two-completion batch, a late arrival and both timers; the refuting
 schedule of `model_run_ok_refuted` is exactly what `wfEvents` excludes -/
@@ -428,8 +475,8 @@ example : (run (start (mkNamed [(0, 7, false), (1, 7, false)]) true) [.tick]).se
         (.batch [.fail 0, .succ 5, .succ 1])).settles = [.ok 1 1] := by decide
 
 /-- **one_stream_per_entry** (clause 7) — streams are opened only for entries of the list, at most one per entry -/
-theorem one_stream_per_entry (l : List (Nat × Nat × Bool)) (ct : Bool) (evs : List Event) :
-    Spec.clause7 (mkNamed l) (Spec.snapOf (run (start (mkNamed l) ct) evs)) = true :=
-  clause7_of (inv_run (mkNamed l) ct evs).core (mkNamed_nodup l)
+theorem one_stream_per_entry (l : List (Nat × Nat × Nat)) (ct : Bool) (evs : List Event) :
+    Spec.clause7 (mkNamedR l) (Spec.snapOf (run (start (mkNamedR l) ct) evs)) = true :=
+  clause7_of (inv_run (mkNamedR l) ct evs).core (mkNamedR_nodup l)
 
 end TornadoModel.C10
